@@ -12,7 +12,7 @@ PROP = {
         job("paths", "core", "./internal/integration_tests/", "integration_tests",
             ["harness/core/internal/integration_tests/vfnet_test.go",
              "harness/core/internal/integration_tests/c04_paths_test.go"], "^TestVerifC04",
-            ["server-path-e2e", "client-fastopen-e2e"], race=False, timeout_quick=300, timeout_thorough=900),
+            ["server-path-e2e", "client-fastopen-e2e", "client-addrlen-e2e"], race=False, timeout_quick=300, timeout_thorough=900),
     ],
     "parallel": 2,
     "min_events": 50000,
@@ -22,7 +22,9 @@ PROP = {
              "0/1/17/4000 bytes in the same write as the frame or later; the outbound must be asked for exactly the "
              "address, the response must parse OK and the echoed payload must be unshifted. client-fastopen-e2e: dial "
              "held on the server while 0..2 client Reads time out, then released (success with a greeting of 1/9/700 "
-             "bytes, or failure with a message): the next Read returns exactly the target's bytes / the dial error. "
+             "bytes, or failure with a message): the next Read returns exactly the target's bytes / the dial error. client-addrlen-e2e: "
+             "the real Client.TCP (plain and fast open) with target addresses of {1,2,62..65,255,2046,2047,2048} bytes: the outbound is asked "
+             "for exactly that address and a 1500-byte payload behind the request is echoed unshifted. "
              "[proto job] Every case is a byte stream (frame [+ trailing tunnel payload]) handed to the real ReadTCPRequest/"
              "ReadTCPResponse through a reader that implements only io.Reader, serves a scripted chunking into "
              "non-empty reads and counts what was requested and delivered; a reference decoder written from "
